@@ -23,9 +23,11 @@ Reject(what, exp, got) ==
   /\ bad' = TRUE /\ UNCHANGED <<st, tid>>
 Keep == UNCHANGED <<tid, bad>>
 
+(* a reconcile that takes time: t is when it was invoked, b how long it ran; intervals count from its return *)
+Busy(e) == IF "b" \in DOMAIN e THEN e.b ELSE 0
 Rec(e) ==
   LET eo == NormO(e.o, e.d)
-      new(cnt) == [t |-> e.t, o |-> eo, d |-> e.d, cnt |-> NextCount(cnt, eo), before |-> IF eo = "reseterr" THEN 0 ELSE cnt,
+      new(cnt) == [t |-> e.t + Busy(e), o |-> eo, d |-> e.d, cnt |-> NextCount(cnt, eo), before |-> IF eo = "reseterr" THEN 0 ELSE cnt,
                    touched |-> FALSE, seen |-> TRUE]
   IN
   IF "fresh" \in DOMAIN e /\ ~e.fresh THEN Reject("restart-without-fresh-reconcile", TRUE, e.fresh)
